@@ -56,7 +56,7 @@ int cm_is_booster(const cm_board_t *b) { return (b->uid[0] & (1 << 1)) != 0; }
 int cm_board_connected(const cm_model_t *m, int bi) { while (bi >= 0) { if (!m->b[bi].present) return 0; bi = m->b[bi].parent; } return 1; }
 void cm_board_addr(const cm_model_t *m, int bi, uint8_t addr[4]) {
 	uint8_t path[4]; int n = 0; memset(addr, 0, 4);
-	while (bi > 0 && n < 3) { path[n++] = m->b[bi].local; bi = m->b[bi].parent < 0 ? 0 : m->b[bi].parent; }
+	while (bi > 0 && n < 3) { path[n++] = m->b[bi].local; if (m->b[bi].parent < 0 && m->b[bi].hub_local && n < 3) path[n++] = m->b[bi].hub_local; bi = m->b[bi].parent < 0 ? 0 : m->b[bi].parent; }
 	for (int i = 0; i < n; i++) addr[i] = path[n - 1 - i];
 }
 int cm_find_board(const cm_model_t *m, const char *id) { for (int i = 0; i < m->nb; i++) if (!strcmp(m->b[i].id, id)) return i; return -1; }
@@ -125,6 +125,9 @@ void cm_install(cm_model_t *m) {
 		cm_board_t *b = &m->b[i]; if (pass == 0) b->sbnode = -1;
 		if (b->sbnode >= 0) continue;
 		int p = b->parent < 0 ? 0 : m->b[b->parent].sbnode; if (p < 0) continue;
+		if (b->parent < 0 && b->hub_local) {      /* an interface node the configuration does not know */
+			static const uint8_t hub_uid[7] = {0x80, 0x00, 0x0D, 0x77, 0x00, 0x48, 0x55}; uint8_t ha[4] = {b->hub_local, 0, 0, 0};
+			int hub = sb_find(ha); if (hub < 0) hub = sb_add_node(0, b->hub_local, hub_uid); if (hub < 0) continue; p = hub; }
 		b->sbnode = sb_add_node(p, b->local, b->uid);
 		if (b->sbnode >= 0) SB.n[b->sbnode].present = b->present;
 	}
